@@ -253,6 +253,7 @@ func (w *WaitGroup) Wait() {
 // ---- channels ----
 
 type chanState struct {
+	keep     any // the channel itself: keeps its address from being reused while the entry exists
 	buf      []any
 	cap      int
 	closed   bool
@@ -266,7 +267,7 @@ func stateOf(ch any, c int) *chanState {
 	p := reflect.ValueOf(ch).Pointer()
 	st := chans[p]
 	if st == nil {
-		st = &chanState{cap: c}
+		st = &chanState{cap: c, keep: ch}
 		chans[p] = st
 	}
 	return st
